@@ -27,6 +27,10 @@ func (s byteSet) contains(b byte) bool {
 // byte sets below are built with this function
 //
 func byteRange(a, b byte) (s byteSet) {
+	if a > b {
+		// A range must be given in ascending order: a reversed one is empty.
+		return
+	}
 	for i := a; i < b; i++ {
 		s.add(i)
 	}
